@@ -58,6 +58,7 @@ def own_space(rep, res):
                 it["src"], it["mode"] = r["src"], "text"
             if r["ml"]:
                 it["ml"] = r["ml"]
+            it["xv"] = r.get("xv", "")
             progs.append(it)
         elif r.get("kind") == "hist":
             k = key_of(r["fam"], r["id"]["c"])
@@ -86,14 +87,14 @@ def run(rep):
     if "LayoutIndependent" not in bad.violated:
         raise Machinery("Slots self-test: index-based wiring was not rejected (%s)" % (bad.violated or bad.errors[:2]))
     rep.notes["slots_selftest"] = "index-based wiring violates LayoutIndependent after %d states" % bad.distinct
-    rep.add_tlc("C15.enum_own (families CO / WS / FF / FV / TX and the histories; MiniJS invariants on every state of every program in the fragment)", own)
+    rep.add_tlc("C15.enum_own (families CO / WS / FF / FV / TX / PK and the histories; MiniJS invariants on every state of every program in the fragment)", own)
     own_progs, hists = own_space(rep, own)
     nfam = {}
     for p in own_progs:
         nfam[p["fam"]] = nfam.get(p["fam"], 0) + 1
     for h in hists:
         nfam[h["fam"]] = nfam.get(h["fam"], 0) + 1
-    for f in ("CO", "WS", "FF", "FV", "TX", "HF", "HT"):
+    for f in ("CO", "WS", "FF", "FV", "TX", "PK", "HF", "HT", "HK"):
         if not nfam.get(f):
             raise Machinery("enumeration of spec/C15.tla produced no %s item" % f)
     rep.spaces.append({"space": "C15 families (TLC-enumerated): " + ", ".join("%s=%d" % kv for kv in sorted(nfam.items())),
@@ -129,7 +130,7 @@ def run(rep):
         return r["out"].get("o") == "hang" and "wall" in str(r["out"].get("why", ""))
 
     # the families whose subject is the history (FF / FV / TX) run under the first 16 hash seeds only
-    hist_fams = {it["id"] for it in items if it["fam"] in ("FF", "FV", "TX")}
+    hist_fams = {it["id"] for it in items if it["fam"] in ("FF", "FV", "TX", "PK")}
     cases16 = cases if nseeds <= 16 else [c for c in cases if c["id"] not in hist_fams]
 
     def one_seed(seed):
@@ -209,7 +210,7 @@ def run(rep):
         for n, part in enumerate(parts):
             rid = "%s#%d" % (it["id"], n)
             chunk_of[rid] = (it["id"], part)
-            eq_recs.append({"id": rid, "ast": isast, "prog": it["prog"] if isast else {"body": []}, "exp": it.get("exp", ""),
+            eq_recs.append({"id": rid, "ast": isast, "prog": it["prog"] if isast else {"body": []}, "exp": it.get("exp", ""), "xv": it.get("xv", ""),
                             "devs": [], "obs": part})
     t0 = time.time()
     verdicts, st, tr, wall = tlc.judge(rep.pid, "C15", eq_recs, EQ_CFG, shards=c05.SHARDS, tag="judge_eq")
@@ -225,13 +226,14 @@ def run(rep):
         it = byid[iid]
         if v["nlay"] > 1:
             varied.add(iid)
-        if not (v["eq"] and v["shape"] and v["scope"] and v["cls"]) and iid not in reported:
+        if not (v["eq"] and v["shape"] and v["scope"] and v["cls"] and v["val"]) and iid not in reported:
             reported.add(iid)
-            why = "outcomes differ between hash seeds / evaluation orders / clock schedules" if not v["eq"] else \
-                  ("the outcome is not of the class the language prescribes (%s)" % it.get("exp") if not v["cls"] else
-                   ("slot layouts are not permutations of each other with a fixed prefix" if not v["shape"]
-                    else "slot lists of a top-level function are not the sets the scope analysis prescribes"))
-            k = (v.get("first", 0) or v.get("firstcls", 0) or 1)
+            why = ("outcomes differ between hash seeds / evaluation orders / clock schedules" if not v["eq"]
+                   else "the outcome is not of the class the language prescribes (%s)" % it.get("exp") if not v["cls"]
+                   else "the value is not the one the specification prescribes (%r)" % it.get("xv") if not v["val"]
+                   else "slot layouts are not permutations of each other with a fixed prefix" if not v["shape"]
+                   else "slot lists of a top-level function are not the sets the scope analysis prescribes")
+            k = (v.get("first", 0) or v.get("firstcls", 0) or v.get("firstval", 0) or 1)
             d = part[min(k, len(part)) - 1]
             rep.mismatch("%s %s" % (it["fam"], it["id"]),
                          {"why": why, "par": it.get("par"), "first": {x: part[0][x] for x in ("src", "log", "out")},
